@@ -94,20 +94,29 @@ def coq_fcase(case, rec, impl_res, grouped):
     """case with raw labels: the model factorises them itself (Factorize.v)"""
     import math as _m
     base = coq_case(case, rec, impl_res, grouped)
+    ex = case.get("expected")
+    groups = [I.unf(g) for g in impl_res["groups"][0]]
+    allv = [I.unf(x) for x in case["labels"]] + list(ex or []) + groups
+    finite = [float(v) for v in allv if not (isinstance(v, float) and _m.isnan(v))]
+    # labels on a half-integer grid are sent to Coq doubled (an order-preserving injection into Z)
+    scale = 1 if all(v == int(v) for v in finite) else 2
+
+    def enc(v):
+        y = float(v) * scale
+        if y != int(y):
+            raise ValueError("label not on the integer / half-integer grid")
+        return C.zlit(int(y))
+
     labs = []
     for x in case["labels"]:
         x = I.unf(x)
         if isinstance(x, float) and _m.isnan(x):
             labs.append("None")
         else:
-            if float(x) != int(x):
-                raise ValueError("non-integer label")
-            labs.append(f"(Some {C.zlit(int(x))})")
-    ex = case.get("expected")
-    exl = "None" if ex is None else "(Some " + C.list_lit([C.zlit(int(e)) for e in ex]) + ")"
-    groups = [I.unf(g) for g in impl_res["groups"][0]]
+            labs.append(f"(Some {enc(x)})")
+    exl = "None" if ex is None else "(Some " + C.list_lit([enc(e) for e in ex]) + ")"
     return (f"mkFCase ({base}) {'true' if case.get('sort', True) else 'false'} {exl} {C.list_lit(labs)} "
-            f"{C.list_lit([C.zlit(int(g)) for g in groups])}")
+            f"{C.list_lit([enc(g) for g in groups])}")
 
 
 CASES_HEADER = (
